@@ -53,9 +53,11 @@ func OpenGtp5g(wg *sync.WaitGroup, addr string, mtu uint32) (*Gtp5g, error) {
 	wg.Add(1)
 	go func() {
 		defer wg.Done()
-		err = mux.Serve()
-		if err != nil {
-			g.log.Warnf("mux Serve err: %+v", err)
+		// a variable of its own: the enclosing function's err is still in
+		// use by the caller's goroutine when Close() makes Serve return
+		errServe := mux.Serve()
+		if errServe != nil {
+			g.log.Warnf("mux Serve err: %+v", errServe)
 		}
 	}()
 	g.mux = mux
